@@ -9,14 +9,16 @@ def tup(x):
     return tuple(tup(y) for y in x) if isinstance(x, list) else x
 
 
-def check(acc, spec, L, budgets=BUDGETS, blank='_'):
+def check(acc, spec, L, budgets=BUDGETS, blank='_', kw=None):
     from gambatools.tm_algorithms import tm_accepts_word, tm_simulate_word
-    rp = {'fn': 'mc.props.c11:one', 'mode': 'plain', 'params': {'spec': spec, 'L': L, 'budgets': list(budgets), 'blank': blank}}
-    Q, sigma, gamma, delta, q0, qa, qr, blank = tm.parts(spec, blank)
-    ok, T = core.lib_call(acc, 'TM()', {'tm': spec}, tm.build, spec, blank, repro=rp)
+    kw = kw or {}
+    rp = {'fn': 'mc.props.c11:one', 'mode': 'plain', 'params': {'spec': spec, 'L': L, 'budgets': list(budgets), 'blank': blank, 'kw': kw}}
+    Q, sigma, gamma, delta, q0, qa, qr, blank = tm.parts(spec, blank, **kw)
+    ok, T = core.lib_call(acc, 'TM()', {'tm': spec}, lambda: tm.build(spec, blank, **kw), repro=rp)
     if not ok:
         return
-    shown = tm.show(spec, blank)
+    shown = tm.show(spec, blank, **kw)
+    shown['delta_insertion_order'] = kw.get('order', 'cells')
     acc.states += 1
     seen = set()
     for w in spaces.words(sigma, L):
@@ -85,8 +87,26 @@ def judge_trace(tr, confs, exp, k, w, q0, qa, qr, blank):
     return None
 
 
-def one(acc, spec, L, budgets, blank):
-    check(acc, tup(spec), L, tuple(budgets), blank)
+def one(acc, spec, L, budgets, blank, kw=None):
+    check(acc, tup(spec), L, tuple(budgets), blank, kw)
+
+
+VARIANTS = [
+    ('_', {'order': 'symbols'}),                       # delta filled symbol by symbol, not state by state
+    ('□', {'names': ['a', 'b']}),                      # working states named like tape symbols
+    ('_', {'names': ['q1', 'q10'], 'order': 'symbols'}),
+    ('#', {'gamma': None}),
+]
+
+
+def t_variants(acc, w, g, L, shard, nshard, stride=1, offset=0, budgets=BUDGETS):
+    """Every machine in several presentations, back to back in one process: other insertion order of delta, state
+    names that read like tape contents, alternating blank symbols (the empty word is then a different tape)."""
+    for idx, spec in tm.tms(w, g):
+        if idx % stride == offset % stride and (idx // stride) % nshard == shard:
+            for blank, kw in VARIANTS:
+                kw = {k: v for k, v in kw.items() if v is not None}
+                check(acc, spec, L, tuple(budgets), blank, kw)
 
 
 def t_space(acc, w, g, L, shard, nshard, stride=1, offset=0, budgets=BUDGETS, blank='_'):
@@ -110,6 +130,9 @@ def plan(tier, seed):
     add(0, 3, 1, 1, blank='□')
     add(1, 2, 3, 1)
     add(1, 2, 2, 1, budgets=(0, 1, 2, 3, 50, 1000), blank='□')
+    tasks.append(('plain', 'mc.props.c11:t_variants', {'w': 1, 'g': 2, 'L': 2, 'shard': 0, 'nshard': 1}))
+    tasks.extend(('plain', 'mc.props.c11:t_variants', {'w': 1, 'g': 3, 'L': 2, 'shard': s_, 'nshard': 8, 'budgets': [0, 1, 2, 3, 5]}) for s_ in range(8))
+    tasks.extend(('plain', 'mc.props.c11:t_variants', {'w': 2, 'g': 2, 'L': 2, 'shard': s_, 'nshard': 16, 'stride': 8 if tier == 'quick' else 1, 'offset': seed, 'budgets': [0, 1, 2, 3, 5]}) for s_ in range(16))
     if tier == 'quick':
         add(1, 3, 2, 8)
         add(2, 2, 2, 32, stride=4)
@@ -121,4 +144,4 @@ def plan(tier, seed):
         bounds = 'TM(0,g), TM(1,2), TM(1,3), TM(2,2) (83 521) x words <= 3; budgets 0..8 (+ larger budgets on a stride)'
     return {'tasks': tasks, 'bounds': {'spaces': bounds}, 'exhaustive': True,
             'rule': 'every machine with w working states and g tape symbols (each delta cell undefined or (target, write, L/R)) x every input word x every step budget; verdict and configuration sequence vs a 15-line Sipser step function; non-trivial = machine on which at least two of accept / reject / undecided occur',
-            'assumptions': ['head position after an implicit reject is not specified and not compared', 'tapes compared modulo trailing blanks']}
+            'assumptions': ['head position after an implicit reject is not specified and not compared', 'tapes compared modulo trailing blanks', 'every machine also with delta inserted symbol by symbol, with working states named a, b / q1, q10, and with blanks _, □, # alternating within one process']}
